@@ -214,3 +214,12 @@ Proof.
   destruct H as (H1 & H2 & _ & H3 & _). repeat split; assumption.
 Qed.
 Print Assumptions C09_hypotheses_satisfiable.
+
+(** Tie to the Go SOURCE (translator /verif/go2coq, regenerated from /repo on every check): the nonce,
+    funds, block-gas, intrinsic-gas, transfer, refund-cap and pool-overflow guards and the uint64 gas
+    arithmetic of the model are the expressions of state_processor.go / tx_pool_utils.go /
+    gas_pool.go / lib/math themselves (statement spelled out in SourceTie.v). *)
+From Kardia Require Import C09.SourceTie.
+Theorem C09_source_tie : C09_source_tie_statement.
+Proof. exact C09_source_tie_proof. Qed.
+Print Assumptions C09_source_tie.
